@@ -11,6 +11,7 @@ from ..gen import steps as gs
 from ..gen.docs import docgen
 from ..ref import marks as rm
 from ..ref import plain as P
+from ..ref import splice as S
 from ..ref import validate as V
 
 ID = "C01"
@@ -44,7 +45,7 @@ OPS = [k for k in go.ALL_OPS if k != "step"]
 
 
 def generate(R: Draw, tier: str) -> dict:
-    how = R.weighted([("genuine", 3), ("transplanted", 2), ("perturbed", 5), ("random", 3), ("mark-focus", 2), ("reopen-focus", 2), ("join-focus", 2)])
+    how = R.weighted([("genuine", 3), ("transplanted", 2), ("perturbed", 5), ("random", 3), ("mark-focus", 2), ("reopen-focus", 2), ("join-focus", 2), ("gap-focus", 2)])
     if how == "mark-focus":
         sref = R.choice(["big_small", "remark_user", "asym_chain"])
         if R.bool(0.8):
@@ -70,6 +71,18 @@ def generate(R: Draw, tier: str) -> dict:
                 desc = {"k": "addMark", "from": op["from"], "to": op["to"], "mark": op["mark"]}
             else:
                 desc = {"k": "addNodeMark", "pos": min(n, op["from"] + 2) if R.bool(0.3) else op["from"], "mark": op["mark"]}
+    if how == "gap-focus":
+        # hand-made around-steps whose gap is not a flat range (across siblings, or open on one side only) or keeps
+        # inline content inside a text slice
+        for _ in range(3):
+            desc = gs.sibling_gap_step(R, g, doc) if R.bool(0.7) else gs.inline_gap_step(R, g, doc)
+            if desc is not None:
+                if R.bool(0.5) and desc["slice"]["c"] == []:
+                    desc["slice"] = gs.closed_slice(R, g)
+                    desc["insert"] = R.int(0, S.slice_size(desc["slice"], rs.leaf_types))
+                break
+            doc = g.doc(R, R.weighted([("small", 3), ("medium", 3)]))
+            n = P.size_of(doc["c"], rs.leaf_types)
     if how == "join-focus":
         for _ in range(3):
             desc = gs.sibling_join_step(R, g, doc)
